@@ -39,6 +39,12 @@ def gen_layout(rng, small=False):
                                                  rng.randint(1, min(2, cpn - 1))))
     if gpn > 1 and rng.random() < 0.3:
         lay['blocked_gpus'] = sorted(rng.sample(range(gpn), 1))
+    # one node of the allocation is not accessible, a backup node takes its
+    # place: the node indexes of the pilot are not consecutive
+    import zlib
+    h = zlib.crc32(repr(sorted(lay.items())).encode())
+    if lay['nodes'] > 1 and h % 5 == 0:
+        lay['dropped_node'] = (h >> 8) % (lay['nodes'] - 1)
     return lay
 
 
